@@ -137,7 +137,7 @@ class C14(HttpProp):
             "decoded (status, X-Version-Id, X-Parent-Version-Id, X-Snapshot-Request, Content-Type, body; absence included) "
             "and compared with the table applied to the library outcome; non-trivial = >=5 distinct outcome kinds in the history")
     def cases(self, rng, tier):
-        n, length = sizes(tier, (80, 40), (1200, 150))
+        n, length = sizes(tier, (200, 40), (1200, 150))
         out = []
         for k in range(n):
             g = HttpGen(rng, rng.choice([1, 2, 3]))
@@ -396,7 +396,7 @@ class C20(HttpProp):
             ops = state_prefix(random.Random(rng.getrandbits(32)), (1,))
             ops += reqs[k:k + per]
             out.append(Case(f"c20-g{k // per}", ops, mode="http"))
-        for k in range(sizes(tier, 30, 400)):
+        for k in range(sizes(tier, 90, 400)):
             g = HttpGen(rng, 2)
             ops = []
             for _ in range(rng.randint(10, 60)):
@@ -441,7 +441,7 @@ class C16(HttpProp):
             "against a server without a list; non-trivial = case in which an unlisted client owns data")
     def cases(self, rng, tier):
         out = []
-        n = sizes(tier, 24, 300)
+        n = sizes(tier, 60, 300)
         lists = ["none", "-", "1", "1,3", "2,3,4,5", "3"]
         for k in range(n):
             r = random.Random(rng.getrandbits(32))
